@@ -117,7 +117,89 @@ pub fn compress_with(spec: &scen::CompressSpec, source: &Arc<Vec<u8>>, writer: u
     (wname, outcome, archive, sched, short)
 }
 
+/// Fault-injecting configuration: one read of the source fails with EIO at a drawn point.
+/// Compress may then fail in whatever way it likes (today the CLI panics, the library returns
+/// the error); what it must not do is report success for an archive of a prefix of the source
+/// -- that archive would record a size and checksum that are not the source's.
+fn source_read_fault(ctx: &mut Ctx) {
+    let writer = simkit::with(|s| s.tape.weighted(&[3, 2, 3]) as u32);
+    let cli = writer != 2;
+    let mut spec = scen::gen_compress_spec(cli, false);
+    if cli {
+        spec.metadata = scen::cli_safe_metadata(&spec.metadata);
+    }
+    // an error that arrives while no chunk is in flight is the easiest to lose
+    if gen::chance(1, 2) {
+        spec.buffers = 1;
+    }
+    let max_len = if gen::chance(1, 4) { 3 << 20 } else { 128 * 1024 };
+    let max_len = if spec.comp.expensive() { max_len.min(spec.cfg.expected_avg().saturating_mul(24).max(64)) } else { max_len };
+    let (sspec, data) = gen::gen_source(&spec.cfg, max_len);
+    if data.is_empty() {
+        return;
+    }
+    let len = data.len();
+    let source = Arc::new(data);
+    // bytes delivered before the failure (stdin, library reader) / index of the failing read
+    // system call (file)
+    let fail_at = match gen::draw(4) {
+        0 => 0,
+        1 => len - 1 - gen::draw(len.min(4096) as u32) as usize,
+        _ => gen::draw(len as u32) as usize,
+    };
+    let nth = simkit::with(|s| s.tape.weighted(&[4, 3, 2, 1])) as u64 + if gen::chance(1, 4) { gen::draw(8) as u64 } else { 0 };
+    let sched = scen::draw_schedule();
+    let short = scen::draw_short_reads();
+    scen::quiet(|| {
+        let _ = std::fs::remove_file("a.cba");
+    });
+    let (wname, outcome, archive, fired) = match writer {
+        0 => {
+            scen::put_file("src.bin", &source);
+            scen::set_stdin(None);
+            crate::sys::with(|s| s.add_fault("src.bin", crate::sys::Op::Read, nth, crate::sys::FaultAction::Errno(libc::EIO)));
+            let r = scen::run(&scen::compress_args(&spec, Some("src.bin"), "a.cba", false));
+            let fired = crate::sys::with(|s| s.fault_fired.iter().any(|(p, _)| p.ends_with("src.bin")));
+            ("cli-file", r.outcome, scen::get_file("a.cba").unwrap_or_default(), fired)
+        }
+        1 => {
+            scen::set_stdin(Some(source.to_vec()));
+            simkit::with(|s| s.stdin.as_mut().unwrap().fail_at = Some(fail_at));
+            let r = scen::run(&scen::compress_args(&spec, None, "a.cba", false));
+            scen::set_stdin(None);
+            ("cli-stdin", r.outcome, scen::get_file("a.cba").unwrap_or_default(), true)
+        }
+        _ => {
+            let r = scen::compress_lib_failing(&spec, source.clone(), None, Some(fail_at));
+            simkit::count("fault:SourceReadError");
+            ("lib", r.outcome, r.archive, true)
+        }
+    };
+    let desc = json!({"writer": wname, "options": spec.json(), "source": sspec.json(), "schedule": sched, "short_read_pct": short,
+        "read_fault": if writer == 0 { json!({"failing_read_call": nth, "fired": fired}) } else { json!({"after_bytes": fail_at}) }});
+    if ctx.want_sample {
+        ctx.verdict.sample = Some(desc.clone());
+    }
+    if !fired {
+        return;
+    }
+    simkit::count("probe:source-read-fault-fired");
+    if outcome.is_success() {
+        let recorded = decode_archive(&archive).map(|a| format!("size {} checksum {}", a.dict.source_total_size, gen::hex(&a.dict.source_checksum[..a.dict.source_checksum.len().min(8)]))).unwrap_or_else(|e| format!("undecodable: {}", e));
+        ctx.fail(
+            "source-read-error-ignored",
+            format!("a read of the source failed with EIO, yet {} compress reported success; the archive ({} bytes) records {} for a source of {} bytes; {}", wname, archive.len(), recorded, len, desc),
+        );
+        return;
+    }
+    ctx.verdict.nontrivial = true;
+    ctx.verdict.shape = (writer as u64) << 56 ^ (spec.buffers as u64) << 48 ^ (fail_at.min(nth as usize * 7919) as u64) ^ outcome.class().len() as u64;
+}
+
 pub fn run(ctx: &mut Ctx) {
+    if gen::chance(1, 12) {
+        return source_read_fault(ctx);
+    }
     let big = gen::chance(1, if ctx.tier == crate::harness::Tier::Thorough { 30 } else { 400 });
     let max_len = if big { 5 << 20 } else { 128 * 1024 };
     let Some(m) = make_archive(ctx, max_len, big, None) else { return };
